@@ -908,13 +908,9 @@ func AdoptSession(p Persistence, c *Config) (client *Client, warn []error, fatal
 		// and: seq.acceptN − txs.Acked ≤ publishIDMask
 
 		client.orderedTxs.Acked = keys[0] & publishIDMask
-		last := keys[len(keys)-1] & publishIDMask
-		if last < client.orderedTxs.Acked {
-			// range overflows address space
-			last += publishIDMask + 1
-		}
 		seq := <-client.atLeastOnce.seqSem
-		seq.acceptN = last + 1
+		// the keys are contiguous modulo the address space
+		seq.acceptN = client.orderedTxs.Acked + uint(len(keys))
 		// BUG(pascaldekloe):
 		//  AdoptSession assumes that all publish-at-least-once packets
 		//  were submitted before already. Persisting the actual state
@@ -933,28 +929,13 @@ func AdoptSession(p Persistence, c *Config) (client *Client, warn []error, fatal
 		txs := &client.orderedTxs
 		if len(releaseKeys) == 0 { // implies len(publishKeys) != 0
 			txs.Completed = publishKeys[0] & publishIDMask
-			txs.Received = txs.Completed
 		} else {
 			txs.Completed = releaseKeys[0] & publishIDMask
-			txs.Received = releaseKeys[len(releaseKeys)-1]&publishIDMask + 1
-			if txs.Received < txs.Completed {
-				// range overflows address space
-				txs.Received += publishIDMask + 1
-			}
 		}
-
-		var last uint
-		if len(publishKeys) != 0 {
-			last = publishKeys[len(publishKeys)-1] & publishIDMask
-		} else {
-			last = releaseKeys[len(releaseKeys)-1] & publishIDMask
-		}
-		if last < txs.Received {
-			// range overflows address space
-			last += publishIDMask + 1
-		}
+		// the keys are contiguous modulo the address space
+		txs.Received = txs.Completed + uint(len(releaseKeys))
 		seq := <-client.exactlyOnce.seqSem
-		seq.acceptN = last + 1
+		seq.acceptN = txs.Received + uint(len(publishKeys))
 		// BUG(pascaldekloe):
 		//  AdoptSession assumes that all publish-exactly-once packets
 		//  were submitted before already. Persisting the actual state
